@@ -244,6 +244,64 @@ func checkC19(c *Ctx) {
 	// a "seen recently" filter, a per-name marker) may suppress a notification
 	ruleNotifyIff(c, worker, change, suffix)
 
+	// R19.7 the watcher's error channel is drained: fsnotify hands errors (e.g. the kernel's queue overflow after a burst
+	// with a late consumer) over an unbuffered channel and delivers nothing more until somebody takes them
+	{
+		drained := false
+		var hosts []*ssa.Function
+		var collect func(f *ssa.Function)
+		collect = func(f *ssa.Function) {
+			hosts = append(hosts, f)
+			for _, af := range f.AnonFuncs {
+				collect(af)
+			}
+		}
+		collect(worker)
+		for _, b := range worker.Blocks { // named goroutine functions started by the worker
+			for _, in := range b.Instrs {
+				if g, ok := in.(*ssa.Go); ok {
+					if f := g.Call.StaticCallee(); f != nil && f.Parent() == nil && c.P.OwnedFunc(f) {
+						hosts = append(hosts, f)
+					}
+				}
+			}
+		}
+		isErrorsChan := func(f *ssa.Function, v ssa.Value) bool {
+			t := NewFnView(c.P, f).Term(v).String()
+			if strings.HasSuffix(t, ".Errors") {
+				return true
+			}
+			// the channel handed to a named function as a parameter of type <-chan error / chan error
+			if ch, ok := v.Type().Underlying().(*types.Chan); ok {
+				if n, ok := ch.Elem().(*types.Named); ok && n.Obj().Name() == "error" {
+					_, isParam := v.(*ssa.Parameter)
+					return isParam
+				}
+			}
+			return false
+		}
+		for _, f := range hosts {
+			for _, b := range f.Blocks {
+				for _, in := range b.Instrs {
+					switch x := in.(type) {
+					case *ssa.UnOp:
+						if x.Op == token.ARROW && isErrorsChan(f, x.X) && inCycle(b) {
+							drained = true
+						}
+					case *ssa.Select:
+						for _, st := range x.States {
+							if st.Dir == types.RecvOnly && isErrorsChan(f, st.Chan) && inCycle(b) {
+								drained = true
+							}
+						}
+					}
+				}
+			}
+		}
+		c.Check(drained, "R19.7", "config.DetectDeviceConfigChanges/watcher-errors-drained", pos, "a loop receives from watcher.Errors for as long as the watcher lives",
+			"nothing ever receives from watcher.Errors: after the first error (e.g. the kernel notification queue overflowing during a burst of writes while the consumer is late) fsnotify blocks on that unbuffered channel and no further change is ever notified")
+	}
+
 	// R19.4 shutdown structure
 	closesDeferredFirst := false
 	for _, in := range worker.Blocks[0].Instrs {
@@ -368,6 +426,7 @@ func checkC19(c *Ctx) {
 	c.MinCount("R19.3", 1)
 	c.MinCount("R19.4", 3)
 	c.MinCount("R19.5", 2)
+	c.MinCount("R19.7", 1)
 	c.DecidedClause("the watcher observes exactly the four directories the loader reads; a notification is sent iff the event is a write and the lower-cased name has the loader's suffix; the hand-off observes cancellation; close(change) is deferred first in the only sender, a goroutine closes the watcher on cancellation and the loop ranges over the watcher's event channel; the consumer cancels the per-cycle device context on a notification and the outer loop reloads the configurations")
 	c.UndecidedClause("kernel notification timing and coalescing (inotify), fsnotify internals; the result of watcher.Add is dropped (a directory that cannot be watched is silently ignored - note, not part of the statement)")
 }
